@@ -3,6 +3,7 @@ CONSTANTS
   Pad = 15
   Classes = @CLASSES@
   MaxSyms = @SYMS@
+  MaxLen = @MAXLEN@
   ChunkPats = @CHUNKS@
   EofModes = @EOFS@
   ReadSizes = @READS@
